@@ -457,10 +457,29 @@ pub fn main(args: &[String]) {
             let prefixes: [&str; 4] = ["a", "\u{2163}a", "Z", "\u{ff21}\u{e9}"];
             let suffixes: [&str; 5] = ["", " \u{ff21}", "\u{3000}", "b", "b c"];
             for c in reps.iter() {
-                for n in [5usize, 8, 9, 15, 16, 17, 29, 30, 31, 32, 33, 64, 65] {
+                for n in [5usize, 8, 9, 15, 16, 17, 29, 30, 31, 32, 33, 64, 65, 127, 128, 129, 255, 256, 257, 300] {
                     // every count with an all-ASCII frame and with a randomly chosen frame
                     for (pre, suf) in [("a", "b"), (*rng.pick(&prefixes), *rng.pick(&suffixes))] {
                         let s = format!("{}{}{}", pre, std::iter::repeat(char::from_u32(*c).unwrap()).take(n).collect::<String>(), suf);
+                        rec.exercise(&mut rng, &s, per_string, &kinds, &profiles);
+                    }
+                }
+            }
+        }
+        "marks" => {
+            // long runs of combining marks that need canonical reordering (two or three classes, given in descending
+            // order, alternating, and already sorted) behind a base that composes with some of them
+            let sets: [&[u32]; 5] = [&[0x301, 0x323], &[0x323, 0x301], &[0x5b8, 0x5bc, 0x5c1], &[0x64e, 0x651], &[0x3099, 0x301, 0x323]];
+            let bases: [&str; 4] = ["a", "\u{5d0}", "\u{628}", "\u{30ab}"];
+            for (si, set) in sets.iter().enumerate() {
+                for n in [3usize, 10, 31, 32, 33, 100, 255, 256, 300] {
+                    for pattern in 0..2 {
+                        let mut s = String::from(bases[si % bases.len()]);
+                        for k in 0..n {
+                            let m = if pattern == 0 { set[k % set.len()] } else { set[(k * set.len()) / n] };
+                            s.push(char::from_u32(m).unwrap());
+                        }
+                        s.push('z');
                         rec.exercise(&mut rng, &s, per_string, &kinds, &profiles);
                     }
                 }
